@@ -218,7 +218,7 @@ func Record(cfg RecordConfig, res *core.Result) error {
 						ret = "ok"
 					}
 				case "Justification":
-					cls := pickW(r, JustClasses(), []int{10, 3, 2, 2, 1, 1, 2, 1, 1, 1, 1, 1})
+					cls := pickW(r, JustClasses(), []int{10, 3, 2, 2, 1, 1, 2, 1, 1, 1, 1, 1, 1, 1, 1, 1, 1})
 					i := r.Intn(n)
 					// prefer a standing complaint when there is one
 					if m, ok := agg.Responses(); ok && r.Intn(4) != 0 {
